@@ -153,6 +153,25 @@ impl AckFrame {
         self.ecn.take()
     }
 
+    /// Whether every packet number computed from the ACK ranges is non-negative.
+    ///
+    /// See [section-19.3.1](https://www.rfc-editor.org/rfc/rfc9000.html#section-19.3.1) of QUIC RFC 9000:
+    /// if any computed packet number is negative, an endpoint MUST generate a connection error of
+    /// type FRAME_ENCODING_ERROR.
+    pub fn is_valid(&self) -> bool {
+        let mut smallest = self
+            .largest
+            .into_u64()
+            .checked_sub(self.first_range.into_u64());
+        for (gap, range) in &self.ranges {
+            smallest = smallest
+                .and_then(|s| s.checked_sub(gap.into_u64()))
+                .and_then(|s| s.checked_sub(2))
+                .and_then(|s| s.checked_sub(range.into_u64()));
+        }
+        smallest.is_some()
+    }
+
     /// Iterate through the sequence numbers of the packets acknowledged by the iterative ACK frame,
     /// starting from the largest and going down.
     pub fn iter(&self) -> impl Iterator<Item = RangeInclusive<u64>> + '_ {
